@@ -46,6 +46,27 @@ def main():
                 print(f"BUILDER-ERROR {name} {cfg}: {type(e).__name__}: {e}")
                 bad.append(name)
                 continue
+            if not code and getattr(sp, "pure_replay", False):
+                # generic concrete replay of pure-function contracts (pyvc/replay_pure.py)
+                from pyvc.replay_pure import concrete_replay
+
+                m = Model()
+                m.update({k: 3 for k in ("n0", "n1", "n2", "cc0", "cc1", "cc2", "tc0", "tc1", "tc2", "r0", "r1", "r2", "w0", "w1", "w2")})
+                m.update(dict(shape0=12, shape1=9, src0=3, src1=2, tgt0=4, tgt1=3, itemsize=8, min_mem=16, max_mem=4000, size=7, counter=3,
+                              stop=20, num=2))
+                try:
+                    out = concrete_replay(sp, dict(cfg), m, dict(name="<probe>", kind="ensures"), runner.REPO)
+                except Exception as e:  # noqa: BLE001
+                    out = (None, f"generic replay crashed: {type(e).__name__}: {e}", None)
+                if out is None:
+                    continue
+                n += 1
+                rep, detail, _ = out
+                tag = "ok(g)  " if rep is False else ("REPRODUCES-ON-CLEAN-TREE" if rep else "NO-VERDICT")
+                print(f"{tag} {name} {cfg}: {str(detail)[:160]}")
+                if rep is not False:
+                    bad.append(name)
+                continue
             if not code or code in seen:
                 continue
             seen.add(code)
